@@ -164,6 +164,9 @@ def to_plain(n):
         d = {"name": x.name, "id": x.id, "content": x.content, "tail": x.tail, "prefix": x.prefix,
              "attributes": dict(x.attributes), "extras": dict(x.extras), "nsmap": dict(x.nsmap),
              "children": [k if isinstance(k, dict) else {"name": "<cycle>"} for k in kids]}
+        for c, k in zip(x.children, d["children"]):
+            if c.parent is not x and isinstance(k, dict) and "name" in k and k.get("name") != "<cycle>":
+                k["parent_link"] = "none" if c.parent is None else "elsewhere"
         if any(not isinstance(k, str) for k in d["nsmap"]):
             # JSON object keys are strings: the default namespace (key None) travels as a list of pairs
             d["nsmap_pairs"] = [[k, v] for k, v in d.pop("nsmap").items()]
@@ -186,6 +189,11 @@ def from_plain(Node, d, fresh_ids=True, parent=None):
         n.extras = dict(spec.get("extras") or {})
         n.nsmap = {k: v for k, v in spec["nsmap_pairs"]} if "nsmap_pairs" in spec else dict(spec.get("nsmap") or {})
         n.parent = par
+        if spec.get("parent_link") == "none":
+            n.parent = None
+        elif spec.get("parent_link") == "elsewhere":
+            n.parent = Node("verifFormerParent")
+            n.parent.children.append(n)
         made.append((n, par))
         if par is None and root is None:
             root = n
